@@ -15,6 +15,9 @@ var (
 	goidWho  = map[uint64]int{}
 	autoMode bool
 	spawnSeq int
+	// several concurrent calls in one run (crowd runs): which call a goroutine belongs to, inherited through Spawn/Bind
+	callOf    = map[uint64]int{}
+	spawnCall = map[int]int{}
 )
 
 // Progress is incremented by the scheduler and by every yield; a watchdog outside the bubble uses it to
@@ -23,6 +26,12 @@ var Progress atomic.Uint64
 
 // LockWaitSite is the yield site of an actor waiting for a mutex in the auto-instrumented build.
 const LockWaitSite = "auto:lockwait"
+
+// IsWaitSite reports whether an actor parked at site is waiting for a lock or a channel (auto-instrumented build): it
+// stays enabled, and when picked it merely tries again.
+func IsWaitSite(site string) bool {
+	return site == LockWaitSite || site == "auto:chanwait" || site == "auto:selectwait"
+}
 
 // LockAcquire replaces mu.Lock() in the auto-instrumented build: waiting for the lock is a sequence of yields, so
 // the waiter is parked like any other actor (and picked again later) instead of blocking inside sync.Mutex, which
@@ -38,6 +47,8 @@ func EnableAuto() {
 	goidMu.Lock()
 	autoMode = true
 	goidWho = map[uint64]int{}
+	callOf = map[uint64]int{}
+	spawnCall = map[int]int{}
 	spawnSeq = 0
 	goidMu.Unlock()
 }
@@ -56,22 +67,38 @@ func curGoid() uint64 {
 	return id
 }
 
-func bindExplicit(who int) {
+// CallStride separates the actor ids of concurrent calls: actor who of call c is scheduled as c*CallStride + who.
+const CallStride = 1000
+
+// BindCall says that the calling goroutine (and everything it spawns) belongs to call c of a crowd run.
+func BindCall(c int) {
+	g := curGoid()
+	goidMu.Lock()
+	callOf[g] = c
+	goidMu.Unlock()
+}
+
+// bindExplicit records the explicit actor id of the calling goroutine and returns it shifted into its call's range.
+func bindExplicit(who int) int {
 	if !autoMode {
-		return
+		return who
 	}
 	g := curGoid()
 	goidMu.Lock()
+	who += callOf[g] * CallStride
 	goidWho[g] = who
 	goidMu.Unlock()
+	return who
 }
 
 // Spawn is called by the goroutine that is about to execute a go statement; it returns the provisional
 // identity of the new goroutine. Exactly one actor runs at a time, so the sequence is deterministic.
 func Spawn() int {
+	g := curGoid()
 	goidMu.Lock()
 	spawnSeq++
-	id := 1000 + spawnSeq
+	id := 1000000 + spawnSeq
+	spawnCall[id] = callOf[g]
 	goidMu.Unlock()
 	return id
 }
@@ -82,6 +109,9 @@ func Bind(id int) {
 	goidMu.Lock()
 	if _, ok := goidWho[g]; !ok {
 		goidWho[g] = id
+	}
+	if c, ok := spawnCall[id]; ok {
+		callOf[g] = c
 	}
 	goidMu.Unlock()
 }
@@ -95,5 +125,5 @@ func AutoYield(site string) {
 	if !ok {
 		return // a goroutine the simulator knows nothing about: do not schedule it
 	}
-	Yield(site, who)
+	yieldAs(site, who)
 }
